@@ -373,6 +373,11 @@ func (s c17Sup) tok() string {
 }
 
 func c17Pad32(b []byte) []byte {
+	if len(b) > 32 {
+		// the implementation must refuse such a caller; if it does not, the monitor comparing against
+		// this (unpadded, hence never matching) value reports it instead of the harness crashing
+		return append([]byte("caller-longer-than-32-bytes:"), b...)
+	}
 	out := make([]byte, 32)
 	copy(out[32-len(b):], b)
 	return out
